@@ -8,6 +8,7 @@ package wl
 import (
 	"bytes"
 	"encoding/hex"
+	"errors"
 	"fmt"
 	"os"
 	"path/filepath"
@@ -19,6 +20,7 @@ import (
 	"github.com/massnetorg/mass-core/massutil"
 	"github.com/massnetorg/mass-core/pocec"
 	"massnet.org/mass/config"
+	nodewallet "massnet.org/mass/poc/wallet"
 	"massnet.org/mass/poc/wallet/db"
 	_ "massnet.org/mass/poc/wallet/db/ldb"
 	"massnet.org/mass/poc/wallet/keystore"
@@ -390,3 +392,18 @@ func ReadAllFiles(dir string) (map[string][]byte, error) {
 }
 
 var _ = bytes.Equal
+
+// TryOpenNode opens the store the way the node does at start-up (poc/wallet.NewPoCWallet: MinerDir/keystore) and
+// closes it again at once; it returns the error of the open. dir must be a ".../keystore" directory.
+func TryOpenNode(dir string, pub []byte) error {
+	if filepath.Base(dir) != "keystore" {
+		return errors.New("TryOpenNode: not a keystore directory")
+	}
+	cfg := config.DefaultConfig()
+	cfg.Miner.MinerDir = filepath.Dir(dir)
+	pw, err := nodewallet.NewPoCWallet(cfg, pub)
+	if err != nil {
+		return err
+	}
+	return pw.Close()
+}
